@@ -1,0 +1,13 @@
+//go:build verif
+
+// Verification hooks for property C13, part c: the writer behind
+// Metadata.WriteAtomic (temp file + renameat), so that its two steps can be
+// run under an I/O fault and compared with the model.
+// Compiled only with -tags verif.
+
+package core
+
+// VerifWriteAtomic runs the real writeAtomic on target.
+func VerifWriteAtomic(target string, data []byte) error {
+	return writeAtomic(target, data)
+}
